@@ -450,7 +450,7 @@ theorem connackResend_sinv (fuel : Nat) : ∀ (s : S) (idx : Nat) (rc : RC), SIn
 theorem handleConnack_sinv (s : S) (sp : Bool) (result : Nat) (ok : Bool) (h : SInv s) :
     SInv (s.handleConnack sp result ok).1 := by
   unfold handleConnack
-  extract_lets pre s0 s1 s2 shown s3
+  extract_lets pre s0 s1 shown s3
   clear_value pre
   cases pre
   · dsimp only
@@ -473,8 +473,7 @@ theorem handleConnack_sinv (s : S) (sp : Bool) (result : Nat) (ok : Bool) (h : S
         unfold s1; split
         · exact SInvP.of_eq (s := s) rfl rfl rfl rfl h
         · exact h
-      have h2 : SInv s2 := SInvP.of_eq (s := s1) rfl rfl rfl rfl h1
-      have h3 : SInv s3 := (Low.emit_ng _ _ rfl).sinv h2
+      have h3 : SInv s3 := (Low.emit_ng _ _ rfl).sinv h1
       split
       · exact connackResend_sinv _ s3 0 rcSuccess h3
       · split <;> exact h3
@@ -1009,7 +1008,7 @@ theorem handleConnack_retx (s : S) (sp ok : Bool) (c : Nat)
       ((s.handleConnack sp 0 ok).1.sock ≠ some c ∨ ∀ m ∈ s.out, Retx c evs m) := by
   obtain ⟨v, hv⟩ := mkById_2_0
   unfold handleConnack
-  extract_lets pre s0 s1 s2 shown s3
+  extract_lets pre s0 s1 shown s3
   have hpre : pre = none := by
     unfold pre
     split
@@ -1020,14 +1019,14 @@ theorem handleConnack_retx (s : S) (sp ok : Bool) (c : Nat)
   rw [if_neg (by simp), if_pos rfl]
   have h1 : Low [] s s1 := by
     unfold s1; rw [if_pos rfl]; low_upd
-  have h2 : Low [] s s2 := Low.trans0 h1 (by low_upd)
+  have h2 : Low [] s s1 := h1
   have hs3 : s3.sock = some c := hs
   have hout3 : s3.out = s.out := rfl
   have hi3 : SInv s3 := (Low.emit_ng _ _ rfl).sinv (h2.sinv hi)
   obtain ⟨evs, hlog, hres⟩ := connackResend_retx (s3.out.length + 1) s3 0 rcSuccess c hs3 hi3
     (by rw [hout3]; exact hn) (by omega)
   refine ⟨Ev.onConnect shown sp :: evs, ?_, ?_⟩
-  · rw [hlog]; simp [s3, s2, s1, emit]
+  · rw [hlog]; simp [s3, s1, emit]
   · rcases hres with h | h
     · exact Or.inl h
     · right
